@@ -17,6 +17,10 @@ pub enum MOp {
     Add { f: usize },
     /// how: 0 remove_file_by_uri, 1 update(None), 2 batch None
     Remove { f: usize, how: u8 },
+    /// look every require string up now (direct `find_module`, and with `analyse` also through a
+    /// requiring file that is analysed at this point of the history). Lookups are read-only: the
+    /// answers at the end of the history must not depend on them.
+    Query { analyse: bool },
 }
 
 #[derive(Serialize, Deserialize, Clone, Debug)]
@@ -30,6 +34,11 @@ pub struct ModSpec {
     pub extra_ext: bool,
     pub require_pattern: Vec<String>,
     pub module_map: bool,
+    /// which moduleMap rule (when `module_map`): 0 prefix rewrite `script* -> lib*`, 1 a rule that
+    /// changes the last segment (`<name>_alias -> <name>`), 2 a whole-name rule (`short -> <dotted
+    /// name of file 0>`)
+    #[serde(default)]
+    pub map_kind: u8,
     pub strict_require_path: bool,
     pub ops: Vec<MOp>,
     pub requires: Vec<String>,
@@ -65,7 +74,12 @@ pub fn generate(seed: u64) -> ModSpec {
     };
     let mut ops = Vec::new();
     let mut live = vec![true; files.len()];
+    let with_queries = r.chance(1, 2);
     for _ in 0..r.range(0, 8) {
+        if with_queries && r.chance(1, 3) {
+            ops.push(MOp::Query { analyse: r.chance(1, 2) });
+            continue;
+        }
         let f = r.usize_below(files.len());
         if live[f] {
             live[f] = false;
@@ -98,6 +112,16 @@ pub fn generate(seed: u64) -> ModSpec {
             requires.insert(dotted.replacen("lib", "script", 1));
         }
     }
+    let module_map = r.chance(2, 5);
+    let map_kind = r.below(3) as u8;
+    if module_map && map_kind == 1 {
+        for q in requires.clone() {
+            requires.insert(format!("{q}_alias"));
+        }
+    }
+    if module_map && map_kind == 2 {
+        requires.insert("short".into());
+    }
     requires.insert("no.such.module".into());
     requires.insert("x".into());
     requires.insert("libx".into());
@@ -108,7 +132,8 @@ pub fn generate(seed: u64) -> ModSpec {
         lib_inside,
         extra_ext,
         require_pattern,
-        module_map: r.chance(1, 5),
+        module_map,
+        map_kind,
         strict_require_path: r.chance(1, 3),
         ops,
         requires: requires.into_iter().filter(|s| !s.is_empty()).collect(),
@@ -128,7 +153,11 @@ fn emmyrc(spec: &ModSpec) -> Emmyrc {
         v["runtime"]["requirePattern"] = json!(spec.require_pattern);
     }
     if spec.module_map {
-        v["workspace"]["moduleMap"] = json!([{"pattern": "^script(.*)$", "replace": "lib$1"}]);
+        v["workspace"]["moduleMap"] = match spec.map_kind {
+            1 => json!([{"pattern": "^(.*)_alias$", "replace": "$1"}]),
+            2 => json!([{"pattern": "^short$", "replace": short_target(spec)}]),
+            _ => json!([{"pattern": "^script(.*)$", "replace": "lib$1"}]),
+        };
     }
     serde_json::from_value(v).unwrap_or_default()
 }
@@ -186,17 +215,37 @@ fn names_of(path: &std::path::Path, rts: &Roots, pats: &[String]) -> BTreeSet<St
     out
 }
 
+/// Dotted root-relative stem of file 0: the target of the whole-name moduleMap rule.
+fn short_target(spec: &ModSpec) -> String {
+    let rel = spec.files[0].splitn(2, '/').nth(1).unwrap_or("");
+    rel.trim_end_matches(".lua.txt").trim_end_matches(".lua").replace('/', ".")
+}
+
 fn map_name(spec: &ModSpec, r: &str) -> String {
     if spec.module_map {
-        if let Some(rest) = r.strip_prefix("script") {
-            return format!("lib{rest}");
+        match spec.map_kind {
+            1 => {
+                if let Some(stem) = r.strip_suffix("_alias") {
+                    return stem.to_string();
+                }
+            }
+            2 => {
+                if r == "short" {
+                    return short_target(spec);
+                }
+            }
+            _ => {
+                if let Some(rest) = r.strip_prefix("script") {
+                    return format!("lib{rest}");
+                }
+            }
         }
     }
     r.to_string()
 }
 
 /// Execute the history and answer every require string: name -> resolved file (spec path).
-fn answers(spec: &ModSpec) -> (BTreeMap<String, Option<String>>, Vec<bool>, BTreeMap<String, String>) {
+fn answers(spec: &ModSpec, with_queries: bool) -> (BTreeMap<String, Option<String>>, Vec<bool>, BTreeMap<String, String>) {
     let b = base(spec.seed);
     let rts = roots(spec);
     let mut analysis = EmmyLuaAnalysis::new();
@@ -210,6 +259,12 @@ fn answers(spec: &ModSpec) -> (BTreeMap<String, Option<String>>, Vec<bool>, BTre
     let list: Vec<_> = (0..spec.files.len()).map(|f| (uri(f), Some(text(f)))).collect();
     analysis.update_files_by_uri(list);
     let mut live = vec![true; spec.files.len()];
+    // a user file that requires every string: go-to-definition and module type
+    let user = b.join("main/zz_user.lua");
+    let mut src = String::new();
+    for (i, r) in spec.requires.iter().enumerate() {
+        src.push_str(&format!("local r{i} = require(\"{r}\")\n"));
+    }
     for op in &spec.ops {
         match op {
             MOp::Add { f } => {
@@ -234,13 +289,17 @@ fn answers(spec: &ModSpec) -> (BTreeMap<String, Option<String>>, Vec<bool>, BTre
                     live[*f] = false;
                 }
             }
+            MOp::Query { analyse } => {
+                if with_queries {
+                    for r in &spec.requires {
+                        let _ = analysis.compilation.get_db().get_module_index().find_module(r);
+                    }
+                    if *analyse {
+                        analysis.update_file_by_uri(&file_path_to_uri(&user).unwrap(), Some(src.clone()));
+                    }
+                }
+            }
         }
-    }
-    // a user file that requires every string: go-to-definition and module type
-    let user = b.join("main/zz_user.lua");
-    let mut src = String::new();
-    for (i, r) in spec.requires.iter().enumerate() {
-        src.push_str(&format!("local r{i} = require(\"{r}\")\n"));
     }
     let user_id = analysis.update_file_by_uri(&file_path_to_uri(&user).unwrap(), Some(src.clone()));
     let db = analysis.compilation.get_db();
@@ -307,7 +366,7 @@ pub fn run(spec_v: &Value, verbose: bool) -> CaseReport {
         let salt = if i >= 2 { simcore::rng::derive(spec.seed, &format!("heap{i}")) | 1 } else { 0 };
         let hs = if i >= 2 { simcore::rng::derive(spec.seed, "sweep0") } else { hs };
         let s = spec.clone();
-        match simcore::on_fresh_thread_salted(hs, salt, 64, move || answers(&s)) {
+        match simcore::on_fresh_thread_salted(hs, salt, 64, move || answers(&s, true)) {
             Ok(a) => outs.push(a),
             Err(e) => {
                 return CaseReport {
@@ -326,6 +385,21 @@ pub fn run(spec_v: &Value, verbose: bool) -> CaseReport {
             let d: Vec<String> = ans.iter().filter(|(r, v)| o.0.get(*r) != Some(*v)).map(|(r, v)| format!("{r}: {v:?} vs {:?}", o.0.get(r))).take(3).collect();
             violations.push(("C33:nondeterministic-resolution".into(), format!("sweep point 0 vs {i}: {}", d.join("; "))));
             break;
+        }
+    }
+    // ---- lookups are read-only: the same history without its Query steps ends with the same answers
+    if spec.ops.iter().any(|o| matches!(o, MOp::Query { .. })) {
+        let hs = simcore::rng::derive(spec.seed, "sweep0");
+        let s = spec.clone();
+        if let Ok(quiet) = simcore::on_fresh_thread_salted(hs, 0, 64, move || answers(&s, false)) {
+            *counters.entry("histories_with_mid_history_lookups".into()).or_insert(0) += 1;
+            if quiet.0 != ans || quiet.2 != defs {
+                let mut d: Vec<String> = ans.iter().filter(|(r, v)| quiet.0.get(*r) != Some(*v)).map(|(r, v)| format!("require(\"{r}\"): {v:?} after earlier lookups, {:?} without them", quiet.0.get(r).cloned().flatten())).take(3).collect();
+                if d.is_empty() {
+                    d = defs.iter().filter(|(k, v)| quiet.2.get(*k) != Some(*v)).map(|(k, v)| format!("{k}: {v} after earlier lookups, {:?} without them", quiet.2.get(k))).take(3).collect();
+                }
+                violations.push(("C33:resolution-depends-on-earlier-lookups".into(), d.join("; ")));
+            }
         }
     }
     // ---- reference resolver
@@ -350,6 +424,23 @@ pub fn run(spec_v: &Value, verbose: bool) -> CaseReport {
             .collect();
         // single-derivation exact candidates: the file has exactly one derivable name
         let single_exact: Vec<usize> = exact.iter().copied().filter(|f| names[*f].len() == 1 && !spec.module_map).collect();
+        // moduleMap completeness: nothing is derivable under the raw string, and the rewritten
+        // string is the only derivable name of a live file -> the require resolves to a file
+        // registered under the rewritten name (an exact match of the rewrite beats any fuzzy match)
+        if mapped != *r {
+            *counters.entry("requires_rewritten_by_module_map".into()).or_insert(0) += 1;
+            let raw_any = (0..spec.files.len()).any(|f| live[f] && names[f].contains(r));
+            let mapped_single: Vec<usize> = (0..spec.files.len()).filter(|f| live[*f] && names[*f].len() == 1 && names[*f].contains(&mapped)).collect();
+            if !raw_any && !mapped_single.is_empty() {
+                let ok = got.as_ref().and_then(|p| spec.files.iter().position(|x| x == p)).map(|fi| live[fi] && names[fi].contains(&mapped)).unwrap_or(false);
+                if !ok {
+                    violations.push((
+                        "C33:module-map-rewrite-not-applied".into(),
+                        format!("require(\"{r}\") rewrites to \"{mapped}\", which selects {} exactly, but resolves to {got:?}", spec.files[mapped_single[0]]),
+                    ));
+                }
+            }
+        }
         match got {
             Some(path) => {
                 let Some(fi) = spec.files.iter().position(|p| p == path) else {
@@ -458,7 +549,7 @@ pub fn run(spec_v: &Value, verbose: bool) -> CaseReport {
         nontrivial: spec.files.len() >= 2,
         final_state: digest,
         counters,
-        sample: json!({"files": spec.files, "lib_outside": spec.lib_outside, "lib_inside": spec.lib_inside, "extra_ext": spec.extra_ext, "require_pattern": spec.require_pattern, "module_map": spec.module_map, "strict_require_path": spec.strict_require_path, "ops": spec.ops, "requires": spec.requires.len()}),
+        sample: json!({"files": spec.files, "lib_outside": spec.lib_outside, "lib_inside": spec.lib_inside, "extra_ext": spec.extra_ext, "require_pattern": spec.require_pattern, "module_map": spec.module_map, "map_kind": spec.map_kind, "strict_require_path": spec.strict_require_path, "ops": spec.ops, "requires": spec.requires.len()}),
         error: None,
     }
 }
@@ -483,6 +574,7 @@ pub fn shrink(spec_v: &Value) -> Vec<Value> {
                     MOp::Remove { f: x, .. } if *x == f => None,
                     MOp::Add { f: x } => Some(MOp::Add { f: if *x > f { x - 1 } else { *x } }),
                     MOp::Remove { f: x, how } => Some(MOp::Remove { f: if *x > f { x - 1 } else { *x }, how: *how }),
+                    MOp::Query { analyse } => Some(MOp::Query { analyse: *analyse }),
                 })
                 .collect();
             out.push(c);
